@@ -74,6 +74,7 @@ class Unit:
         self.mustfail = []      # names of vacuity-guard fns
         self.dropped = []
         self._pending_mustfail = False
+        self.soft_undecided = []
 
     # ---------------------------------------------------------------------
     def src(self, rel):
@@ -150,7 +151,7 @@ class Unit:
             elif kw == 'mustfail':
                 self._pending_mustfail = True
                 i += 1
-            elif kw in ('fn', 'item', 'implhdr', 'arm', 'guard', 'slice', 'macroarm', 'sig', 'callslice', 'quote'):
+            elif kw in ('fn', 'item', 'implhdr', 'arm', 'guard', 'slice', 'macroarm', 'sig', 'callslice', 'quote', 'flaguse'):
                 # collect block up to //@end (implhdr/guard are one-liners without block)
                 block = []
                 j = i + 1
@@ -454,20 +455,46 @@ class Unit:
         if m:
             pat, k = m.group(1), int(m.group(2))
         s, f = self._locate_fn(file, container, fn)
-        arms = [a for a in s.arms_in(f['open'] + 1, f['close']) if norm(a['pat']) == norm(pat)]
+        npat = lambda t: norm(t).replace(',)', ')')
+        arms = [a for a in s.arms_in(f['open'] + 1, f['close']) if npat(a['pat']) == npat(pat)]
         if len(arms) <= k:
             raise ExtractError('%s: arm %r #%d not found in fn %s (found %d)' % (file, pat, k, fn, len(arms)))
         return s, f, arms[k]
 
     def _d_arm(self, rest, block, base, tline):
+        as_name = None
+        m = re.search(r'\|\s*as\s+(\w+)\s*$', rest)
+        if m:
+            as_name = m.group(1)
+            rest = rest[:m.start()]
+        wrap, pre, post, nb = None, [], [], []
+        for ln_, l_ in block:
+            st = l_.strip()
+            if st.startswith('//@wrap '):
+                wrap = st[8:]
+            elif st.startswith('//@pre '):
+                pre.append(st[7:])
+            elif st.startswith('//@post '):
+                post.append(st[8:])
+            else:
+                nb.append((ln_, l_))
         s, f, arm = self._find_arm(rest)
         a, b = arm['body']
         where = '%s:%d' % (s.path, s.line_of(a))
-        text = self.apply_subs(self.apply_rules(s.text[a:b], where), self._simple_subs(block), where)
+        text = s.text[a:b]
         if not arm['braced']:
             text = text + ';'
         self.rewrites.append(('R-arm lift match arm %s' % norm(arm['pat'])[:60], where, 1))
-        self.emit_repo(s, a, b, text=text, fn='arm')
+        if as_name:
+            # virtual source: `wrap { pre; <arm body verbatim>; post }` so that //@fn can splice
+            # contracts, loop invariants and proof blocks into it like into any function
+            text = self.apply_subs(text, self._simple_subs(nb), where)
+            head = wrap + ' {\n' + ''.join(p_ + '\n' for p_ in pre)
+            vt = head + text + '\n' + ''.join(p_ + '\n' for p_ in post) + '}\n'
+            self.sources['arm:' + as_name] = Source(s.path, vt, line_base=s.line_of(a) - 1 - head.count('\n'))
+        else:
+            text = self.apply_subs(self.apply_rules(text, where), self._simple_subs(nb), where)
+            self.emit_repo(s, a, b, text=text, fn='arm')
 
     def _d_guard(self, rest, block, base, tline):
         s, f, arm = self._find_arm(rest)
@@ -733,6 +760,41 @@ class Unit:
             self.sources['quote:' + as_name] = Source(file, text, line_base=s.line_of(off) - 1)
         else:
             self.emit_repo(s, off, off + 1, text=text, fn='quote')
+
+    def _d_flaguse(self, rest, block, base, tline):
+        """frame check: every occurrence of FLAG in the function body lies in the guard of one of
+        the listed arms or in the argument list of one of the listed callees; anything else is an
+        unclassified use -> the unit is undecided (never a violation by itself)"""
+        parts = [p.strip() for p in rest.split('|')]
+        file, container, fn, flag = parts[:4]
+        s, f = self._locate_fn(file, container, fn)
+        lo, hi = f['open'] + 1, f['close']
+        spans = []
+        for ln, l in block:
+            st = l.strip()
+            if st.startswith('//@inguard '):
+                pat = st[11:].strip()
+                for a in s.arms_in(lo, hi):
+                    if norm(a['pat']) == norm(pat) and a['guard_span']:
+                        spans.append(a['guard_span'])
+            elif st.startswith('//@inargs '):
+                for cname in st[10:].split():
+                    for m in re.finditer(r'(?<![\w.:])%s\s*\(' % cname, s.masked[lo:hi]):
+                        o = lo + m.end() - 1
+                        spans.append((o, match_close(s.masked, o)))
+        bad = []
+        n = 0
+        for m in re.finditer(r'\b%s\b' % re.escape(flag), s.masked[lo:hi]):
+            k = lo + m.start()
+            n += 1
+            if not any(a <= k < b for a, b in spans):
+                bad.append(s.line_of(k))
+        if bad:
+            # not a violation by itself and not a reason to hide real failures: remembered, and the
+            # unit is undecided if nothing else fails
+            self.soft_undecided.append('%s: unclassified use of `%s` in %s at line(s) %s' % (file, flag, fn, bad))
+        self.rewrites.append(('frame: %d uses of %s in %s, all in listed guards/call arguments' % (n, flag, fn), '%s:%d' % (file, s.line_of(lo)), 1))
+        self.emit('// flaguse %s in %s: %d classified occurrences' % (flag, fn, n), ('tmpl', base, tline))
 
     def _d_macroarm(self, rest, block, base, tline):
         mparts = [p.strip() for p in rest.split('|')]
